@@ -1008,6 +1008,11 @@ class Image(object):
 
         self._wcs = _flip_wcs_parity(self._wcs, self.height)
         self._array = self.asarray()[::-1]
+
+        # A PIL image that this object was created from still has the old row
+        # order; drop it so that `aspil()` (saving, thumbnails) is rebuilt from
+        # the flipped array.
+        self._pil = None
         return self
 
     def ensure_negative_parity(self):
